@@ -19,10 +19,10 @@ E1(k, v) == Entry(k, v, FALSE, NoSpan)
 Vals == {One} \cup (IF RICH >= 1 THEN {VA(<<>>, NoSpan), VT(<<>>, NoSpan)} ELSE {})
         \cup (IF RICH >= 2 THEN {VA(<<One>>, NoSpan),
                             VT(<<E1(KA, One)>>, NoSpan),
-                            VT(<<E1(KA, VT(<<E1(KB, One), E1(KA, One)>>, NoSpan))>>, NoSpan),
-                            \* static arrays of inline tables (not arrays of tables: a later [[header]] must be refused)
-                            VA(<<VT(<<>>, NoSpan)>>, NoSpan), VA(<<VT(<<E1(KB, One)>>, NoSpan)>>, NoSpan)}
+                            VT(<<E1(KA, VT(<<E1(KB, One), E1(KA, One)>>, NoSpan))>>, NoSpan)}
               ELSE {})
+        \* static arrays of inline tables (not arrays of tables: a later [[header]] must be refused)
+        \cup (IF RICH >= 3 THEN {VA(<<VT(<<>>, NoSpan)>>, NoSpan), VA(<<VT(<<E1(KB, One)>>, NoSpan)>>, NoSpan)} ELSE {})
 KC == <<99>>
 WideStmts == {[kind |-> kd, path |-> KP(p), val |-> Dummy] : kd \in {"std", "aot"}, p \in Paths}
              \cup {[kind |-> "kv", path |-> KP(p), val |-> v] : p \in Paths, v \in Vals}
